@@ -1756,6 +1756,8 @@ def import_jackknife(jacks, name, idl=None):
         name of the ensemble the samples are defined on.
     """
     length = len(jacks) - 1
+    if idl is not None and (len(idl) != 1 or len(idl[0]) != length):
+        raise ValueError('idl has to be a list with one configuration list of the same length as the jackknife samples.')
     prj = (np.ones((length, length)) - (length - 1) * np.identity(length))
     samples = jacks[1:] @ prj
     mean = np.mean(samples)
